@@ -24,6 +24,25 @@ type Item struct {
 type ImpItem struct {
 	Name string `json:"n"`
 	Type bool   `json:"t,omitempty"` // `type Name`
+	// Other: "trigger" or "templ": `import trigger Name from m` / `import templ Name from m`.
+	// User modules cannot define either, so importing one from a user module is never legal.
+	Other string `json:"o,omitempty"`
+}
+
+func (x ImpItem) text() string {
+	switch {
+	case x.Other != "":
+		return x.Other + " " + x.Name
+	case x.Type:
+		return "type " + x.Name
+	}
+	return x.Name
+}
+
+// HostImport is an import from a builtin (host) module: `import trigger minute from triggers`.
+type HostImport struct {
+	From string  `json:"f"`
+	Item ImpItem `json:"i"`
 }
 
 // Import is one import statement.
@@ -37,6 +56,8 @@ type Mod struct {
 	Name    string   `json:"name"`
 	Items   []Item   `json:"items,omitempty"`
 	Imports []Import `json:"imports,omitempty"`
+	// HostImports are rendered after Imports (they are always legal: the host offers them).
+	HostImports []HostImport `json:"host_imports,omitempty"`
 	// Bare: the module declares no singleton (with no globals either its init routine is empty);
 	// its initialisation is then not observable and not judged.
 	Bare bool `json:"bare,omitempty"`
@@ -138,16 +159,16 @@ func Render(g *Graph, lk *Link) Rendered {
 			out.ImportLine[m.Name] = append(out.ImportLine[m.Name], line)
 			parts := make([]string, len(im.Items))
 			for i, it := range im.Items {
-				parts[i] = it.Name
-				if it.Type {
-					parts[i] = "type " + it.Name
-				}
+				parts[i] = it.text()
 			}
 			if len(parts) == 1 {
 				emit(fmt.Sprintf("import %s from %s;", parts[0], im.From))
 			} else {
 				emit(fmt.Sprintf("import { %s } from %s;", strings.Join(parts, ", "), im.From))
 			}
+		}
+		for _, hi := range m.HostImports {
+			emit(fmt.Sprintf("import %s from %s;", hi.Item.text(), hi.From))
 		}
 		if !m.Bare {
 			emit(singletonOf(m.Name) + " = int;")
@@ -259,13 +280,12 @@ func Describe(g *Graph) string {
 		for _, im := range m.Imports {
 			var ns []string
 			for _, x := range im.Items {
-				if x.Type {
-					ns = append(ns, "type "+x.Name)
-				} else {
-					ns = append(ns, x.Name)
-				}
+				ns = append(ns, x.text())
 			}
 			ims = append(ims, fmt.Sprintf("{%s}<-%s", strings.Join(ns, ","), im.From))
+		}
+		for _, hi := range m.HostImports {
+			ims = append(ims, fmt.Sprintf("{%s}<-builtin %s", hi.Item.text(), hi.From))
 		}
 		if m.Bare {
 			its = append(its, "no singleton")
